@@ -81,6 +81,13 @@ def run_case(ns, mon, c):
     counters = {"geometries": 1}
     viol = []
     x = rng.standard_normal((N, C, H, W))
+    layout = ["C", "C", "F", "transposed-view", "strided-view"][c["seed"] % 5]
+    if layout == "F":
+        x = np.asfortranarray(x)
+    elif layout == "transposed-view":
+        x = np.ascontiguousarray(x.transpose(3, 2, 1, 0)).transpose(3, 2, 1, 0)
+    elif layout == "strided-view":
+        big = np.zeros((N, C, H, 2 * W)); big[..., ::2] = x; x = big[..., ::2]
     if c.get("empty"):
         for name, f in (("im2col", lambda: ct.im2col(x, k, d, s, p)), ("im2col_v2", lambda: ct.im2col_v2(x, k, d, s, p)),
                         ("im2col_fast", lambda: ct.im2col_fast(x, k, d, s, p)), ("extract_windows", lambda: ct.extract_windows(x, k, s, p, d))):
@@ -207,7 +214,7 @@ def run_case(ns, mon, c):
             seen.add(v["sig"]); vv.append(v)
     nontrivial = L > 1 and max(kk) > 1
     return {"key": json.dumps(geo, sort_keys=True) if nontrivial else None, "viol": vv, "counters": counters,
-            "cover": {"argforms": [form], "features": [f for f, b in (("dilated", max(dd) > 1), ("padded", max(pp) > 0), ("strided", max(ss) > 1),
+            "cover": {"argforms": [form], "input_layouts": [layout], "features": [f for f, b in (("dilated", max(dd) > 1), ("padded", max(pp) > 0), ("strided", max(ss) > 1),
                                                                       ("nonsquare", kk[0] != kk[1]), ("pad_value!=0", pv != 0), ("stride>kernel", ss[0] > kk[0] or ss[1] > kk[1])) if b]}}
 
 
